@@ -24,6 +24,7 @@ import (
 	oracletypes "github.com/elys-network/elys/x/oracle/types"
 	perptypes "github.com/elys-network/elys/x/perpetual/types"
 	sstypes "github.com/elys-network/elys/x/stablestake/types"
+	toktypes "github.com/elys-network/elys/x/tokenomics/types"
 	tstypes "github.com/elys-network/elys/x/tradeshield/types"
 )
 
@@ -832,6 +833,17 @@ func runHist(t *testing.T, seed int64, n int, out *Out) {
 		}
 		std := w.SeedStandardAt(D(atomPrice))
 		h := &Hist{w: w, std: std, r: rand.New(rand.NewSource(hseed)), focus: focus}
+		inflation := false
+		// one history in three runs with Eden inflation switched on (the production configuration: liquidity-mining and staking
+		// rewards in Eden every block, the provider's portion vested at the ten-day epochs)
+		if rand.New(rand.NewSource(hseed^0x1f1a)).Intn(3) == 0 || os.Getenv("VERIF_INFLATION") != "" {
+			w.Seed(func(ctx sdk.Context) {
+				bpy := w.App.ParameterKeeper.GetParams(ctx).TotalBlocksPerYear
+				w.App.TokenomicsKeeper.SetTimeBasedInflation(ctx, toktypes.TimeBasedInflation{StartBlockHeight: 1, EndBlockHeight: 1_000_000_000, Description: "verif",
+					Authority: w.Gov, Inflation: &toktypes.InflationEntry{LmRewards: bpy * 1_000_000, IcsStakingRewards: bpy * 1_000_000, CommunityFund: bpy * 1000, StrategicReserve: 0, TeamTokensVested: 0}})
+			})
+			inflation = true
+		}
 		// one history in five has whales: leveraged positions sized up to a large fraction of the pool (saturation, refusals
 		// by the pool-health and custody-backing checks)
 		h.whale = rand.New(rand.NewSource(hseed^0x3a1e)).Intn(5) == 0 || os.Getenv("VERIF_WHALE") != ""
@@ -872,6 +884,9 @@ func runHist(t *testing.T, seed int64, n int, out *Out) {
 		}
 		out.Line(J{"t": "hist.begin", "id": hi, "seed": hseed, "names": w.Names, "pools": pools, "obs": w.Observe()})
 		stats := map[string]int{}
+		if inflation {
+			stats["world/inflation-on"]++
+		}
 		faults := os.Getenv("VERIF_FAULTS") != ""
 		outage := 0 // blocks left without price feeds
 		for b := 0; b < n; b++ {
